@@ -2047,6 +2047,7 @@ func runC03(c *core.Ctx) core.Meta {
 
 	checkDestinationNeverRead(c)
 	checkCompareDispatcherAlwaysDispatches(c)
+	checkNoAppendOntoWindow(c, "R03.54", "In the DS handlers the storage is the work-group's LDS: a load that assembles its result with append writes the second element into the LDS behind the first.", 2, emuPkg, cdna3Pkg)
 	return core.Meta{Level: "other",
 		Explanation: "ISA rules that are uniform across opcodes and visible in the code shape, decided for both ALUs: dispatch integrity of every opcode switch (one handler per case, panicking default), ALL-OR-NONE for condition-code writes in every handler, shift-amount intervals in every handler of a shift instruction (handlers tied to instruction names through decode table → dispatch switch → callee), and destination-only operand writes / PC / EXEC writers.",
 		NotDecided:  "arithmetic, rounding, saturation, carries and comparison semantics of individual opcodes (bit-exact conformance needs an executable ISA transcription, a different technique)",
